@@ -276,6 +276,15 @@ fn key_impl(p: &Packet) -> (u8, u8, u8, u8, u16, Vec<u8>, Vec<(u16, Vec<Vec<u8>>
     )
 }
 
+type PKey = (u8, u8, u8, u8, u16, Vec<u8>, Vec<(u16, Vec<Vec<u8>>)>, Vec<u8>);
+
+/// For the comparison with the API model: an option whose values were all cleared may or may not keep an
+/// (empty) entry. (Deduplication uses the full key: over-fine is safe, over-coarse would hide states.)
+fn without_empty_lists(mut k: PKey) -> PKey {
+    k.6.retain(|(_, l)| !l.is_empty());
+    k
+}
+
 fn key_model(m: &RefPacket) -> (u8, u8, u8, u8, u16, Vec<u8>, Vec<(u16, Vec<Vec<u8>>)>, Vec<u8>) {
     (
         m.version,
@@ -297,7 +306,7 @@ fn part_a(ctx: &Ctx, rep: &mut Report) {
         rep,
         bfs::Spec {
             name: "A-api-call-orders",
-            description: "BFS over sequences of public Packet/Header mutators (40 actions), dedup on the full observable state incl. emptied option lists; wire image and decode-back checked in every visited state",
+            description: "BFS over sequences of public Packet/Header mutators (40 actions), dedup on the full observable state incl. emptied option lists (compared with the model modulo such empty entries); wire image and decode-back checked in every visited state",
             nacts: acts.len(),
             max_depth: depth,
             fresh: &|| St { p: Packet::new(), m: RefPacket::default() },
@@ -310,7 +319,7 @@ fn part_a(ctx: &Ctx, rep: &mut Report) {
                     );
                 }
                 if check {
-                    if key_impl(&s.p) != key_model(&s.m) {
+                    if without_empty_lists(key_impl(&s.p)) != without_empty_lists(key_model(&s.m)) {
                         return Step::Violated(
                             "C01/api-state-differs-from-model".into(),
                             format!("after {:?}: observable packet state differs from the API model", acts[a]),
@@ -324,6 +333,7 @@ fn part_a(ctx: &Ctx, rep: &mut Report) {
                 Step::Ok
             },
             key: &|s: &St| key_impl(&s.p),
+            project: None,
             label: &|a| format!("{:?}", acts[a]),
         },
     );
